@@ -22,6 +22,20 @@ ASSETS = ["PEG", "pUSD", "pFCT", "pXBT", "pDCR"]
 RATES = {"PEG": 5000000, "pUSD": 100000000, "pXBT": 900000000000, "pFCT": 150000000, "pDCR": 2000000000}
 MINERS = ["M%d" % i for i in range(1, 26)]
 
+ALL_TICKERS = ["PEG", "pUSD", "pEUR", "pJPY", "pGBP", "pCAD", "pCHF", "pINR", "pSGD", "pCNY", "pHKD", "pKRW", "pBRL", "pPHP", "pMXN", "pXAU",
+               "pXAG", "pXBT", "pETH", "pLTC", "pRVN", "pXBC", "pFCT", "pBNB", "pXLM", "pADA", "pXMR", "pDASH", "pZEC", "pDCR", "pAUD", "pNZD",
+               "pSEK", "pNOK", "pRUB", "pZAR", "pTRY", "pEOS", "pLINK", "pATOM", "pBAT", "pXTZ", "pHBAR", "pNEO", "pCRO", "pETC", "pONT",
+               "pDOGE", "pVET", "pHT", "pALGO", "pDGB", "pAED", "pARS", "pTWD", "pRWF", "pKES", "pUGX", "pTZS", "pBIF", "pETB", "pNGN"]
+
+
+def distinct_rates(assets, peg=5 * 10**6):
+    """A different rate for every asset (so that any mix-up between two assets changes a USD value)."""
+    r = {t: (i + 3) * 10**7 + i * 12347 for i, t in enumerate(ALL_TICKERS) if t in assets}
+    r["pUSD"] = 10**8
+    r["PEG"] = peg
+    return r
+
+
 SMALLCAPS = {"PEG", "pDCR", "pDGB", "pDOGE", "pHBAR", "pONT", "pRVN", "pBAT", "pALGO", "pBIF", "pETB",
              "pKES", "pNGN", "pRWF", "pTZS", "pUGX"}
 
